@@ -21,7 +21,29 @@ pub const CXEval_StrLiteral: CXEvalResultKind = 4;
 
 #[derive(Clone, Copy)]
 pub struct CXEvalResult(pub usize);
-pub struct EvalResult { pub x: CXEvalResult }
+pub struct EvalResult { pub x: CXEvalResult, pub ty: Type }
+
+// ---- string literals (EvalResult::as_literal_string): the evaluated expression's type and the evaluator's byte buffer
+pub type CXTypeKind = u32;
+pub const CXType_Char_U: CXTypeKind = 4;
+pub const CXType_UChar: CXTypeKind = 5;
+pub const CXType_Char16: CXTypeKind = 6;
+pub const CXType_Char32: CXTypeKind = 7;
+pub const CXType_Char_S: CXTypeKind = 13;
+pub const CXType_SChar: CXTypeKind = 14;
+pub const CXType_WChar: CXTypeKind = 15;
+#[derive(Clone, Copy)] pub struct Type { pub h: usize }
+pub uninterp spec fn ty_kind(t: Type) -> CXTypeKind;
+pub uninterp spec fn ty_pointee(t: Type) -> Option<Type>;
+pub uninterp spec fn ty_elem(t: Type) -> Option<Type>;
+impl Type {
+    #[verifier::external_body] pub fn kind(&self) -> (r: CXTypeKind) ensures r == ty_kind(*self) { unimplemented!() }
+    #[verifier::external_body] pub fn pointee_type(&self) -> (r: Option<Type>) ensures r == ty_pointee(*self) { unimplemented!() }
+    #[verifier::external_body] pub fn elem_type(&self) -> (r: Option<Type>) ensures r == ty_elem(*self) { unimplemented!() }
+}
+// CStr::from_ptr(clang_EvalResult_getAsStr(x)).to_bytes().to_vec(): the evaluator's buffer read as a NUL-terminated BYTE string
+pub uninterp spec fn ffi_cstr_bytes(x: CXEvalResult) -> Seq<u8>;
+#[verifier::external_body] pub fn ffi_str_bytes(x: CXEvalResult) -> (r: Vec<u8>) ensures r@ == ffi_cstr_bytes(x) { unimplemented!() }
 
 pub uninterp spec fn ffi_kind(x: CXEvalResult) -> CXEvalResultKind;
 pub uninterp spec fn ffi_is_unsigned(x: CXEvalResult) -> c_uint;
